@@ -48,7 +48,7 @@ ASSUMPTIONS = [
 RULE = ("idp_build: all 64 option combinations x 5 metadata layouts {none, one, two, garbage-first, garbage-only} with no certificate argument, plus per combination a sample of "
         "layout x encrypt_cert_assertion x encrypt_cert_advice in {None, '', sp, sp2, garbage} (thorough: all 1600 x 64... see code), plus options left to the IdP configuration; random identities with XML/percent/space specials. "
         "e2e: every emitted response read by SPs holding the needed keys first / second / not at all and by a strict SP (want_* = what was signed). "
-        "sp_pipeline: 12 mutations x 4 signature states x {plain, encrypted for sp / sp2 / a foreign key} x want_assertions_signed x 3 key layouts (+ allow_unsolicited for 3 mutations). "
+        "sp_pipeline: 12 mutations x 4 signature states x {plain, encrypted for sp / sp2 / a foreign key} x want_assertions_signed x 3 key layouts (+ allow_unsolicited for 3 mutations); keys handed in through outstanding_certs {this request, second of two, another request, none}. "
         "sp_tree: the listed document shapes x SP options x key layouts x fault schedules {[],[T],[F,T],[T,T],[T,F,T]} x tool policy {fail, skip}. Non-trivial = distinct by all coordinates.")
 
 # --------------------------------------------------------------------------
@@ -94,12 +94,20 @@ def _layout_md(name):
 _idps = {}
 
 
+VERIFY_ASSERTION, VERIFY_ADVICE = "sp2", "sp"     # the certificates the configured verify_encrypt_cert_* callables accept
+
+
 def the_idp(config_defaults=False):
+    """False: plain IdP; True: encrypt_assertion / sign_assertion set in its configuration;
+    'verify': verify_encrypt_cert_assertion / _advice callables configured"""
     if config_defaults not in _idps:
         mds = [_layout_md(n) for n in LAYOUTS]
         over = {}
-        if config_defaults:
+        if config_defaults is True:
             over = {"idp": {"encrypt_assertion": True, "sign_assertion": True}}
+        elif config_defaults == "verify":
+            want_a, want_b = env.cert_b64(VERIFY_ASSERTION), env.cert_b64(VERIFY_ADVICE)
+            over = {"idp": {"verify_encrypt_cert_assertion": lambda c: c == want_a, "verify_encrypt_cert_advice": lambda c: c == want_b}}
         _idps[config_defaults] = env.make_idp(sp_md=mds, **over)
     return _idps[config_defaults]
 
@@ -138,10 +146,13 @@ def coq_ident(ident):
 def coq_idp_case(c):
     f = c["flags"]
     g = ("{| g_sign_response := %s; g_sign_assertion := %s; g_encrypt_assertion := %s; g_enc_advice := %s; g_pefim := %s; "
-         "g_self_contained := %s; g_cert_assertion := %s; g_cert_advice := %s; g_md_certs := %s; g_idp_key := %d; g_pub := %s |}"
+         "g_self_contained := %s; g_cert_assertion := %s; g_cert_advice := %s; g_md_certs := %s; g_verify_assertion := %s; g_verify_advice := %s; "
+         "g_idp_key := %d; g_pub := %s |}"
          % (cbool(f["sign_response"]), cbool(f["sign_assertion"]), cbool(f["encrypt_assertion"]), cbool(f["encrypted_advice_attributes"]),
             cbool(f["pefim"]), cbool(f["self_contained"]), coq_cert_arg(c["cert_assertion"]), coq_cert_arg(c["cert_advice"]),
-            coq_md(c["layout"]), KEYID["idp"], PUB))
+            coq_md(c["layout"]),
+            "(Some %d%%N)" % KEYID[VERIFY_ASSERTION] if c.get("config_defaults") == "verify" else "None",
+            "(Some %d%%N)" % KEYID[VERIFY_ADVICE] if c.get("config_defaults") == "verify" else "None", KEYID["idp"], PUB))
     return "(%s, %s)" % (g, coq_ident(c["ident"]))
 
 
@@ -170,7 +181,7 @@ def run_idp_case(c):
               encrypted_advice_attributes=f["encrypted_advice_attributes"], pefim=f["pefim"],
               encrypt_assertion_self_contained=f["self_contained"],
               encrypt_cert_assertion=cert_value(c["cert_assertion"]), encrypt_cert_advice=cert_value(c["cert_advice"]))
-    if c.get("config_defaults"):
+    if c.get("config_defaults") is True:
         # the flags set in the IdP configuration are left to it
         kw["encrypt_assertion"] = None
         kw["sign_assertion"] = None
@@ -203,6 +214,12 @@ def expectation(c):
         return "raise" if md else None
     want_main = f["encrypt_assertion"] and (bool(md) or c["cert_assertion"] not in (None, ""))
     want_adv = f["pefim"] and (bool(md) or c["cert_advice"] not in (None, ""))
+    if c.get("config_defaults") == "verify":
+        # a configured callable must have accepted the certificate that is used
+        if f["encrypt_assertion"] and c["cert_assertion"] != VERIFY_ASSERTION:
+            return dict(main="raise", adv=None, want_main=True, want_adv=False)
+        if (f["pefim"] or f["encrypted_advice_attributes"]) and c["cert_advice"] != VERIFY_ADVICE:
+            return dict(main=None, adv="raise", want_main=False, want_adv=True)
     return dict(main=usable(c["cert_assertion"]) if want_main else None, adv=usable(c["cert_advice"]) if want_adv else None,
                 want_main=want_main, want_adv=want_adv)
 
@@ -227,6 +244,12 @@ def unit_idp(ctx):
                      self_contained=True)
         for layout in ("one", "none"):
             plan.append((flags, layout, None, None, True))
+    for fl in itertools.product([False, True], repeat=3):
+        # verify_encrypt_cert_* callables configured: every pair of certificate arguments
+        flags = dict(sign_response=False, sign_assertion=fl[2], encrypt_assertion=fl[0], encrypted_advice_attributes=False, pefim=fl[1],
+                     self_contained=True)
+        for a, b in itertools.product(CERT_ARGS, CERT_ARGS):
+            plan.append((flags, "one", a, b, "verify"))
     out = []
     with env.Clock(NOW):
         for flags, layout, ca, cadv, cfgdef in plan:
@@ -264,7 +287,7 @@ def judge_idp(ctx, results, fixed=True):
             elif exp["want_adv"]:
                 protected = ["attr_name", "attr_value"]
             if "raise" in (exp["main"], exp["adv"]):
-                ctx.oracle_fail("idp-no-usable-cert-but-emitted:" + key, "every certificate for the SP is unusable, yet a response was emitted", show)
+                ctx.oracle_fail("idp-no-usable-cert-but-emitted:" + key, "no certificate that may be used (every one unusable, or not accepted by the configured verify callable), yet a response was emitted", show)
             for cat in protected:
                 for s in sec[cat]:
                     if enc_tools.readable_in(got, s):
@@ -353,30 +376,32 @@ def with_faults(schedule, policy, f):
             os.environ["PV_XMLSEC_UNDEC"] = old
 
 
-def run_sp_tree(case, xml, ids):
+def run_sp_tree(case, xml, ids, outstanding_certs=None):
     """observable of Model.Encrypt.show_tree_run: [outcome, advice ids] | Exn('rejected') ; plus the identity for the oracle"""
     import base64
     sp = case.sp()
     wire = base64.b64encode(xml.encode("utf-8")).decode("ascii")
     try:
-        r = sp.parse_authn_request_response(wire, case.binding_uri(), copy.copy(case.outstanding), conv_info=case.conv_info)
+        r = sp.parse_authn_request_response(wire, case.binding_uri(), copy.copy(case.outstanding), outstanding_certs=outstanding_certs,
+                                            conv_info=case.conv_info)
     except BaseException as e:  # noqa
         if isinstance(e, (KeyboardInterrupt, SystemExit)):
             raise
         return Exn("rejected"), dict(error=type(e).__name__)
     if r is None:
         return Exn("rejected"), dict(error="None")
-    nooa = r.session_not_on_or_after if r.session_not_on_or_after > 0 else r.not_on_or_after
-    if r.assertion is not None:
-        nooa = r.session_info()["not_on_or_after"]
     seen, adv = [], []
     for a in r.assertions:
         if any(a is b for b in seen):
             continue
         seen.append(a)
         if a.advice is not None:
-            adv += [ids.get(b.id, 0) for b in (a.advice.assertion or [])]
-    out = [[ids.get(a.id, 0) for a in r.assertions], r.name_id.text if r.name_id is not None else None, r.came_from, int(nooa), r.in_response_to]
+            adv += [ids.get(b.id, 0) for b in (a.advice.assertion or []) if ids.get(b.id, 0) not in adv]
+    read = []
+    for a in r.assertions:
+        if ids.get(a.id, 0) not in read:
+            read.append(ids.get(a.id, 0))
+    out = [read, r.name_id.text if r.name_id is not None else None]
     return [out, adv], dict(ava=r.ava, name_id=out[1], ids=[a.id for a in r.assertions], advice=[b.id for a in seen if a.advice is not None for b in (a.advice.assertion or [])])
 
 
@@ -606,7 +631,10 @@ def unit_pipeline(ctx):
                     if accepted and (info["ids"] or info["name_id"] is not None or info["ava"]):
                         ctx.oracle_fail("pipeline:identity-from-undecryptable:" + key, "content no configured key opens yielded %r" % (info,), show)
                 elif position in ("first", "second"):
-                    if accepted and must_reject:
+                    read = accepted and bool(info["ids"])
+                    if accepted and not read and not must_reject:
+                        ctx.oracle_fail("pipeline:valid-encrypted-not-read:" + key, "the assertion was encrypted for a configured key but nothing was read from it", show)
+                    if read and must_reject:
                         ctx.oracle_fail("pipeline:decrypted-escapes-check:" + key,
                                         "an encrypted assertion with %s / signature %s was accepted (want_assertions_signed=%s)" % (mut, sig, was), show)
                     if not accepted and not must_reject:
@@ -615,6 +643,42 @@ def unit_pipeline(ctx):
                         ctx.oracle_fail("pipeline:identity-differs:" + key, "identity read from the decrypted assertion is %r" % (info,), show)
                 if n % 700 == 1:
                     ctx.sample(dict(case=show, outcome=impl))
+    # keys that are not configured but handed in for the request this response answers (outstanding_certs)
+    def pem(k):
+        return open(env.key(k)).read()
+    OC = {"this-request": ({"req-1": {"key": pem("sp2"), "cert": ""}}, ["sp2"]),
+          "this-request-second": ({"req-1": [{"key": pem("other"), "cert": ""}, {"key": pem("sp2"), "cert": ""}]}, ["other", "sp2"]),
+          "other-request": ({"req-9": {"key": pem("sp2"), "cert": ""}}, []),
+          "empty": ({}, [])}
+    with env.Clock(NOW):
+        for (ocname, (oc, extra_keys)), mut, sig, deliver, was in itertools.product(
+                sorted(OC.items()), [None, "expired", "audience"], [None, "valid", "corrupt"], ["sp", "sp2", "other"], [False, True]):
+            a = mutated(mut, sig)
+            spec = pipeline.R(assertions=[], encrypted=[dict(a, enc_for=deliver)])
+            real = pipeline.SPCase(was=was, enc_keys=("sp",), conv_info={"entity_id": env.SP_ID})
+            virtual = pipeline.SPCase(was=was, enc_keys=tuple(["sp"] + extra_keys), conv_info={"entity_id": env.SP_ID})
+            xml = pipeline.build_xml(spec)
+            coq, ids = pipeline.case_coq(virtual, spec, NOW)
+            got, info = run_sp_tree(real, xml, ids, outstanding_certs=oc)
+            impl = got[0] if isinstance(got, list) else got
+            openable = deliver in ["sp"] + extra_keys
+            show = dict(mutation=mut, sig=sig, delivered=deliver, outstanding_certs=ocname, want_assertions_signed=was, openable=openable)
+            cases.append(dict(id=n, coq=coq, impl=impl, show=show))
+            n += 1
+            ctx.nontriv(tuple(show.items()))
+            accepted = isinstance(got, list)
+            ctx.count("pipeline:request-key:%s:%s" % ("openable" if openable else "not-openable", "accepted" if accepted else "rejected"))
+            must_reject = mut is not None or sig == "corrupt" or (was and not sig)
+            key = "mut=%s:sig=%s:oc=%s:delivered=%s:was=%s" % (mut, sig, ocname, deliver, was)
+            if not openable and accepted and (info["ids"] or info["name_id"] is not None or info["ava"]):
+                ctx.oracle_fail("pipeline:identity-from-undecryptable:" + key, "content no configured or handed-in key opens yielded %r" % (info,), show)
+            read = accepted and bool(info["ids"])
+            if openable and accepted and not read and not must_reject:
+                ctx.oracle_fail("pipeline:valid-encrypted-not-read:" + key, "the assertion was encrypted for a key handed in for this request but nothing was read from it", show)
+            if openable and read and must_reject:
+                ctx.oracle_fail("pipeline:decrypted-escapes-check:" + key, "accepted", show)
+            if openable and not accepted and not must_reject:
+                ctx.oracle_fail("pipeline:valid-encrypted-rejected:" + key, "a valid assertion encrypted for a key handed in for this request was rejected: %r" % (info,), show)
     # a decrypted assertion must not be accepted where the same assertion sent plain is refused
     escapes = 0
     for (mut, sig, deliver, was, keys, au), acc in outcomes.items():
@@ -626,7 +690,8 @@ def unit_pipeline(ctx):
     ctx.extra["encrypted_accepted_plain_refused"] = (
         "%d cells, all of them: allow_unsolicited on, response answers an outstanding request, SubjectConfirmationData names another one "
         "(loads() compares InResponseTo of PLAIN assertions only; the per-assertion checks do not require it when unsolicited responses are allowed)" % escapes)
-    ctx.correspond("sp_pipeline_encrypted", pipeline.IMPORTS, pipeline.MODEL_ACCEPT, pipeline.CTYPE, cases, shard=200)
+    ctx.correspond("sp_pipeline_encrypted", "Model.Status Model.Response Model.Encrypt", "fun cr : cfg * response => show_pipeline_run (fst cr) (snd cr)",
+                   pipeline.CTYPE, cases, shard=200)
 
 
 # --------------------------------------------------------------------------
